@@ -16,7 +16,9 @@
 //!   OR: answers of the external code the model treats as oracles (unicase classes of the
 //!       component names, serde_yaml acceptance of the front matter, inline-quantity splits,
 //!       converter unit classes)
-//!   R : `valid=<0|1> <structure>` | `none` (no output) | `panic`
+//!   R : `valid=<0|1> <structure>` | `none` (no output) | `panic`; a quantity of an ingredient, a cookware
+//!       item or a timer is one token `<t|n><f|l><unit hex or ->:<value>` (text/number, Fixed/Linear, unit,
+//!       the Value inside the ScalableValue: see `value_tok`); inline quantities are counted (`iq <n>`)
 //!   V : `-` or the comma separated names of the conjuncts of C06 that fail on this recipe.
 use cooklang::analysis::parse_events;
 use cooklang::model::{Content, IngredientReferenceTarget, Item};
@@ -381,9 +383,28 @@ fn value_kind(v: &ScalableValue) -> (bool, bool) {
     }
 }
 
+/// the value the recipe holds, one token: `n:<m>:<e>` (a number, exactly m * 2^e as `vh::f64_exact`
+/// prints it; `nan:0` / `inf:0` / `-inf:0` for a non-finite one), `r:<m>:<e>:<m>:<e>` (a range: start,
+/// end), `t:<hex>` (a text).  A number is `Number::value()`, as in the event encoding above.
+fn value_tok(v: &Value) -> String {
+    fn n(v: f64) -> String {
+        let mut o = vec![];
+        num(v, &mut o);
+        o.join(":")
+    }
+    match v {
+        Value::Number(x) => format!("n:{}", n(x.value())),
+        Value::Range { start, end } => format!("r:{}:{}", n(start.value()), n(end.value())),
+        Value::Text(t) => format!("t:{}", hex(t)),
+    }
+}
+
 fn qinfo(v: &ScalableValue, unit: Option<&str>) -> String {
     let (t, f) = value_kind(v);
-    format!("{}{}{}", if t { "t" } else { "n" }, if f { "f" } else { "l" }, opt_hex(unit))
+    let inner = match v {
+        ScalableValue::Fixed(x) | ScalableValue::Linear(x) => x,
+    };
+    format!("{}{}{}:{}", if t { "t" } else { "n" }, if f { "f" } else { "l" }, opt_hex(unit), value_tok(inner))
 }
 
 fn quantity_info(q: &Option<Quantity<ScalableValue>>) -> String {
